@@ -136,8 +136,10 @@ class Probe:
                 if where == 'method':
                     # complete method-scoped deferred work (spans, captures) like a real return would
                     self.handler.trace_call(gen.gi_frame, 'return', None)
-                else:
-                    self.handler.trace_call(gen.gi_frame, 'line', None) if False else None
+            if where == 'line':
+                # the function goes on and returns: work deferred until the line has completed (a capture stage, a line
+                # span) completes with the next event of the frame
+                self.handler.trace_call(gen.gi_frame, 'return', None)
             gen.close()
             out[where] = self.delta(n0)
         return out
